@@ -52,9 +52,16 @@ def last(name):
 
 
 def check_config(chk, prog, cfg):
+    METHOD = None     # method form: `impl Retainer { fn retain_type(&mut self, id) }` with the three collections as fields of a local struct
     try:
-        rt_path = prog.fn("PortableRegistry::retain::retain_type")
         drv_path = prog.fn("PortableRegistry::retain")
+        try:
+            rt_path = prog.fn("PortableRegistry::retain::retain_type")
+        except mir.AnchorError:
+            cands = [p_ for p_ in prog.fns if mir.strip_generics(p_).startswith("scale_info::portable::PortableRegistry::retain::") and mir.strip_generics(p_).endswith("::retain_type")]
+            if len(cands) != 1:
+                raise
+            rt_path = cands[0]
     except mir.AnchorError as e:
         chk.anchor_missing("retain/retain_type", str(e))
         return
@@ -62,10 +69,31 @@ def check_config(chk, prog, cfg):
     chk.count("bodies", 2)
     W = lambda bb=None: b.where(bb)
 
-    if b.arg_count != 4:
-        chk.unrecognised("R10.O", "retain_type:signature", W(), "expected 4 parameters (id, types, new_types, retained_mappings), found %d" % b.arg_count, cfg)
-        return
-    A_ID, A_TYPES, A_NEW, A_MAP = [("arg", i, b.names.get(i)) for i in (1, 2, 3, 4)]
+    if b.arg_count == 2:
+        f_ = prog.fns[rt_path]
+        st_ = prog.ty(prog.peel_refs(f_["inputs"][0]))
+        adt_ = prog.adts.get(st_.get("d")) if st_["k"] == "adt" else None
+        if adt_ is not None and adt_["kind"] == "struct":
+            ARG1 = ("arg", 1, b.names.get(1))
+            roles = {}
+            for idx_, fl in enumerate(adt_["variants"][0]["fields"]):
+                ts = prog.ty(fl["ty"])["s"]
+                term = ("field", ("deref", ARG1), idx_, fl["name"], st_["d"])
+                if "BTreeMap<u32, u32>" in ts:
+                    roles.setdefault("map", []).append((term, fl["name"]))
+                elif "PortableType" in ts and "Vec<" in ts and "&" not in ts.split("Vec<")[0]:
+                    roles.setdefault("new", []).append((term, fl["name"]))
+                elif "PortableType" in ts:
+                    roles.setdefault("types", []).append((term, fl["name"]))
+            if all(len(roles.get(k_, [])) == 1 for k_ in ("map", "new", "types")):
+                METHOD = {"self": ARG1, "adt": st_["d"], "names": {k_: roles[k_][0][1] for k_ in roles}}
+                A_ID = ("arg", 2, b.names.get(2))
+                A_TYPES, A_NEW, A_MAP = roles["types"][0][0], roles["new"][0][0], roles["map"][0][0]
+    if METHOD is None:
+        if b.arg_count != 4:
+            chk.unrecognised("R10.O", "retain_type:signature", W(), "expected 4 parameters (id, types, new_types, retained_mappings) or a method on a struct holding the three collections, found %d parameter(s)" % b.arg_count, cfg)
+            return
+        A_ID, A_TYPES, A_NEW, A_MAP = [("arg", i, b.names.get(i)) for i in (1, 2, 3, 4)]
 
     def is_arg(t, a):
         t = mir.strip_transparent(t, ())
@@ -155,6 +183,8 @@ def check_config(chk, prog, cfg):
         """the recursive call behind `t`: t itself, or the call of a recursion closure rewritten to retain_type(<arg>, types, new_types, map)"""
         if t[0] == "call" and t[1]["name"] == rt_name_ and len(t[2]) == 4:
             return t
+        if METHOD is not None and t[0] == "call" and t[1]["name"] == rt_name_ and len(t[2]) == 2 and mir.strip_transparent(t[2][0]) == METHOD["self"]:
+            return ("call", t[1], (t[2][1], A_TYPES, A_NEW, A_MAP))     # self.retain_type(id): the collections travel with self
         if t[0] == "call" and t[1].get("method") in ("call_mut", "call", "call_once") and len(t[2]) == 2:
             cl_, ups_ = mir.closure_of(t[2][0])
             if cl_ is None:
@@ -306,7 +336,9 @@ def check_config(chk, prog, cfg):
                         okv = False
                         detail = "store not dominated by its recursive call"
             seen_id_store.setdefault(q, []).append((okv, bb, detail))
-        elif root == A_NEW or (root[0] == "arg" and root[1] == 3):
+        elif METHOD is not None and root == METHOD["self"] and p.startswith("." + METHOD["names"]["new"]):
+            final_store = (bb, lhs, val)
+        elif METHOD is None and (root == A_NEW or (root[0] == "arg" and root[1] == 3)):
             final_store = (bb, lhs, val)
         elif root[0] == "arg":
             chk.fail("R10.C", "write-arg:" + path_str(root) + p, W(bb), "unexpected store through parameter %s" % path_str(root), cfg)
@@ -413,7 +445,10 @@ def check_config(chk, prog, cfg):
     if not found:
         chk.unrecognised("R10.M", "retain_type:match-type_def", W(), "no switch on discriminant(entry.ty.type_def) found", cfg)
 
-    check_driver(chk, prog, prog.body(drv_path), mir.strip_generics(rt_path), cfg)
+    if METHOD is not None:
+        check_driver_method_form(chk, prog, prog.body(drv_path), mir.strip_generics(rt_path), METHOD, cfg)
+    else:
+        check_driver(chk, prog, prog.body(drv_path), mir.strip_generics(rt_path), cfg)
 
 
 def check_driver(chk, prog, d, rt_name, cfg):
@@ -656,3 +691,91 @@ def _phi_places(b, lhs, entry):
         else:
             return None
     return out or None
+
+
+def check_driver_method_form(chk, prog, d, rt_name, M, cfg):
+    """driver of the method form: `let mut r = Retainer { types: &mut self.types, new_types: vec![], retained_mappings: BTreeMap::new() };
+    for id in 0..r.types.len() as u32 { if filter(id) { r.retain_type(id); } }  self.types = r.new_types; r.retained_mappings`"""
+    W = lambda bb=None: d.where(bb)
+    SELF = ("arg", 1, d.names.get(1))
+    FILT = ("arg", 2, d.names.get(2))
+    calls = [(bb, t) for bb, t in d.calls() if d.callee_name(t) == rt_name]
+    if len(calls) != 1:
+        chk.fail("R10.D", "retain:one-retain_type-call", W(), "driver calls retain_type %d times" % len(calls), cfg)
+        return
+    cbb, ct = calls[0]
+    args = [d.operand_term(a) for a in ct["args"]]
+    holder = mir.strip_transparent(args[0])
+    agg = None
+    if holder[0] == "var":
+        ini = d.var_init(holder[1])
+        if len(ini) == 1 and ini[0][0] == "agg" and ini[0][2].get("adt") == M["adt"]:
+            agg = ini[0]
+    if agg is None:
+        chk.unrecognised("R10.D", "retain:call-args", W(cbb), "the receiver of retain_type is not a local %s{..} value" % M["adt"].split("::")[-1], cfg)
+        return
+    f_types, f_new, f_map = (mir.agg_field(agg, M["names"][k]) for k in ("types", "new", "map"))
+    tp = paths.access_path(d, f_types)
+    ok_coll = tp is not None and tp[0] == SELF and tp[1] == ".types"
+    chk.expect(ok_coll, "R10.D", "retain:call-args", W(cbb), "the holder's `%s` is %s" % (M["names"]["types"], path_str(f_types)[:80]), cfg)
+    fresh = lambda t, nm: t is not None and ((t[0] == "call" and not t[2] and t[1]["name"] == nm) or (nm.endswith("Vec::new") and is_call(t, "alloc::vec::Vec::new", nargs=0)))
+    chk.expect(fresh(f_new, "alloc::vec::Vec::new") and fresh(f_map, "alloc::collections::btree::map::BTreeMap::new"), "R10.D", "retain:fresh-collections", W(),
+               "new_types := %s; retained_mappings := %s" % (path_str(f_new)[:50] if f_new else None, path_str(f_map)[:50] if f_map else None), cfg)
+    touched = []
+    for bb, t in d.calls():
+        nm = d.callee_name(t)
+        if nm == rt_name:
+            continue
+        for a in t["args"]:
+            at = d.operand_term(a)
+            ap = paths.access_path(d, at)
+            hits = (ap is not None and ap[0] == holder) or (ap is not None and ap[0] == SELF and ap[1].startswith(".types"))
+            if hits and nm.split("::")[-1] not in ("len", "deref", "deref_mut", "new", "is_empty"):
+                touched.append((bb, nm, path_str(at)))
+    chk.expect(not touched, "R10.D", "retain:collections-only-via-retain_type", W(touched[0][0] if touched else None),
+               "other uses of the collections in the driver: %s" % [(n, a) for _, n, a in touched], cfg)
+    idt = args[1]
+    item_ok = False
+    detail = path_str(idt)
+    if idt[0] == "field" and idt[1][0] == "downcast" and idt[1][3] == "Some":
+        nx = idt[1][1]
+        if nx[0] == "call" and last(nx[1]["name"]) == "next" and "Range" in nx[1]["name"]:
+            it = mir.strip_transparent(nx[2][0])
+            ini = d.var_init(it[1]) if it[0] == "var" else []
+            if len(ini) == 1:
+                r = ini[0]
+                while r[0] == "call" and last(r[1]["name"]) == "into_iter":
+                    r = r[2][0]
+                if r[0] == "agg" and r[2].get("adt") == "core::ops::range::Range":
+                    lo, hi = r[3]
+                    hi0 = mir.uncast(hi)
+                    hp = paths.access_path(d, hi0[2][0]) if is_call(hi0, "len", nargs=1) else None
+                    over_types = hp is not None and ((hp[0] == holder and hp[1] == "." + M["names"]["types"]) or (hp[0] == SELF and hp[1] == ".types"))
+                    item_ok = lo[0] == "int" and lo[1] == 0 and over_types
+                    detail = "iterates %s" % path_str(r)
+    chk.expect(item_ok, "R10.D", "retain:ascending-all-ids", W(cbb), detail, cfg)
+    fcalls = [(bb, t) for bb, t in d.calls() if t.get("method") in ("call_mut", "call", "call_once") and mir.strip_transparent(d.operand_term(t["args"][0])) == FILT]
+    okf = False
+    detail = "filter calls: %d" % len(fcalls)
+    if len(fcalls) == 1:
+        fbb, ft = fcalls[0]
+        fa = d.operand_term(ft["args"][1])
+        same_id = fa[0] == "agg" and len(fa[3]) == 1 and fa[3][0] == idt
+        tgt = ft["target"]
+        sw = d.blocks[tgt]["term"] if tgt is not None else None
+        if sw and sw["k"] == "switch" and d.operand_term(sw["discr"]) == d.place_term(ft["dest"]):
+            zero = [a[1] for a in sw["arms"] if a[0] == "0"]
+            true_t = sw["otherwise"]
+            guarded = d.dominates(true_t, cbb) and zero and not d.dominates(zero[0], cbb) and zero[0] != true_t
+            okf = same_id and guarded
+            detail = "filter(id) guards the call: %s; same id: %s" % (guarded, same_id)
+    chk.expect(okf, "R10.D", "retain:call-iff-filter", W(cbb), detail, cfg)
+    st = [(bb, d.place_term(lhs), d.rvalue_term(rhs) if kind == "assign" else None) for kind, bb, j, lhs, rhs in d.stores()]
+    fin = [s_ for s_ in st if paths.access_path(d, s_[1]) and paths.access_path(d, s_[1])[0] == SELF]
+    okfin = False
+    if len(fin) == 1 and paths.access_path(d, fin[0][1])[1] == ".types" and fin[0][2] is not None:
+        vp = paths.access_path(d, fin[0][2])
+        okfin = vp is not None and vp[0] == holder and vp[1] == "." + M["names"]["new"]
+    chk.expect(okfin, "R10.D", "retain:self.types=new_types", W(fin[0][0] if fin else None), "stores to self: %s" % [(path_str(s_[1]), path_str(s_[2])[:60] if s_[2] else None) for s_ in fin], cfg)
+    rp = paths.access_path(d, d.return_term())
+    chk.expect(rp is not None and rp[0] == holder and rp[1] == "." + M["names"]["map"], "R10.D", "retain:returns-mappings", W(), "returns %s" % path_str(d.return_term()), cfg)
